@@ -119,6 +119,12 @@ def _split_number(num):
     """number -> (Fraction, [sqrt radicands])"""
     if num.is_Rational:
         return Fraction(int(num.p), int(num.q)), []
+    if num.is_Float:
+        # binary floats are exact dyadic rationals (e.g. 0.5 in definitions)
+        fr = Fraction(float(num))
+        if fr.denominator > 1 << 20:
+            raise Unsupported(f"float {num!r}")
+        return fr, []
     if isinstance(num, Pow) and num.args[1] in (S.Half, -S.Half) \
             and num.args[0].is_Integer and num.args[0] > 0:
         k = int(num.args[0])
@@ -320,6 +326,11 @@ def coq_cert2(cert):
 
 COQ_HEADER2 = """From Coq Require Import ZArith QArith List String.
 From ADC Require Import Core.Scalar Core.Index Core.Expr Core.Swap Core.Canon Core.Equiv Core.DeltaRule Core.Equiv2.
+Import ListNotations. Open Scope string_scope.
+"""
+
+COQ_HEADER3 = """From Coq Require Import ZArith QArith List String.
+From ADC Require Import Core.Scalar Core.Index Core.Expr Core.Swap Core.Canon Core.Equiv Core.DeltaRule Core.Equiv2 Core.Frac.
 Import ListNotations. Open Scope string_scope.
 """
 
